@@ -46,10 +46,14 @@ package sourcerunner
 //@   atcall HandleEvent: recv_ == c.operators[c.keySpace.RangeIndex(key)] && arg0 == event
 //@   ensures called(HandleEvent)
 
+// (Broadcast events - watermarks, barriers - take the same way as the records: through every
+// operator's batcher, one HandleEvent per operator; a side channel would let them overtake records.)
 //@ func operatorCluster.broadcastEvent
 //@   property C04
 //@   nosafety
 //@   atcall HandleEvent: recv_ == op && arg0 == request
+//@   loop 0:
+//@     step called(HandleEvent)
 
 // (A full batch is handed over by a send that WAITS for the operator's sender, never by an offer in
 // a select: Go evaluates the operand of a send case - the Flush that takes the batch out of the
@@ -113,6 +117,7 @@ package sourcerunner
 //@   atcall sendOperatorEvent: false
 //@   atcall broadcastEvent: false
 //@   atcall routeEvent: false
+//@   atcall recv:checkpointBarrier@1: false
 
 // The per-operator sender hands a full batch to its worker SYNCHRONOUSLY (unbuffered channel): a
 // batch still waiting in a buffer could be overtaken by the time-out flush of the following batch
